@@ -21,16 +21,16 @@ Section CoreBatch.
      invariant P that generation preserves (P = "the state has the shape this core owns") *)
   Variable P : St -> Prop.
   Hypothesis P_gen : forall st, P st -> P (fst (sc_gen K st)).
-  Hypothesis par_ok : forall st, P st -> sc_gen_par K st = gen_n K (sc_w K) st.
+  Hypothesis par_ok : 1 < sc_w K -> forall st, P st -> sc_gen_par K st = gen_n K (sc_w K) st.
 
   Lemma P_gen_n n st : P st -> P (fst (gen_n K n st)).
   Proof. revert st; induction n as [|n IH]; intros st H; simpl; auto.
     specialize (P_gen st H). destruct (sc_gen K st) as [st1 b]. specialize (IH st1 P_gen).
     destruct (gen_n K n st1); auto. Qed.
 
-  Lemma gen_groups_ok g st : P st -> gen_groups K g st = gen_n K (g * sc_w K) st.
+  Lemma gen_groups_ok g st : 1 < sc_w K -> P st -> gen_groups K g st = gen_n K (g * sc_w K) st.
   Proof.
-    revert st; induction g as [|g IH]; intros st H; simpl; auto.
+    intros Hw. revert st; induction g as [|g IH]; intros st H; simpl; auto.
     rewrite par_ok, gen_n_app by auto. pose proof (P_gen_n (sc_w K) st H) as H1.
     destruct (gen_n K (sc_w K) st) as [st1 x]. rewrite IH by auto. reflexivity.
   Qed.
